@@ -27,18 +27,18 @@ type caseT struct {
 	note  string
 }
 
-// hlib.NewRng(seed) starts splitmix64 at seed·γ + const and steps by γ: the streams of seeds 1, 2, 3 are the same
-// stream shifted by one or two draws, and the generators re-synchronise after a few cases (VERIF_SEED=1 and 3 evaluated
-// the same 50 062 cases).  The seed is therefore scrambled first, so that different seeds give unrelated runs.
-func scramble(x uint64) uint64 {
-	x += 0x632BE59BD9B4E019
-	x = (x ^ (x >> 30)) * 0xBF58476D1CE4E5B9
-	x = (x ^ (x >> 27)) * 0x94D049BB133111EB
-	return x ^ (x >> 31)
-}
-
 func run(c *Ctx) {
-	c.Rng = NewRng(scramble(c.Seed))
+	// C15_SDP_FIND="<kind> <more|extra>": the first form seeds with a third H.264 set / with further fmtp parameters
+	if a := strings.Fields(os.Getenv("C15_SDP_FIND")); len(a) == 2 {
+		for v, n := uint64(0), 0; v < 100000 && n < 5; v++ {
+			f := drawForm(a[0], v, []byte{0x42}, goodVps265, goodPps265)
+			if (a[1] == "more" && f.moreSets) || (a[1] == "extra" && f.extra && !f.moreSets) {
+				fmt.Println(v, f.startCode, f.params)
+				n++
+			}
+		}
+		os.Exit(0)
+	}
 	// C15_SDP_LINE="<kind> <hex> <form seed> <spec>": print the op line of that SDP case (for corpus files) and stop
 	if a := strings.Fields(os.Getenv("C15_SDP_LINE")); len(a) == 4 {
 		seed, _ := strconv.ParseUint(a[2], 10, 64)
